@@ -90,6 +90,8 @@ def build(tier, seed):
                 if twin not in (False, "ugly") and (k not in ("create-list", "grow-list", "fix-str-quotes") or MODES[mi]["preview"]):
                     continue
                 tasks.append({"cases": g[i : i + BATCH], "twin": twin})
+    pc = _project_cases()
+    tasks += [{"projects": pc[i : i + 2]} for i in range(0, len(pc), 2)]
     return tasks
 
 
@@ -139,7 +141,77 @@ def _judge(cases, twin):
     return [None] * n, ctx
 
 
+FMT_SCRIPT = ("import subprocess, sys\ntext = sys.stdin.read()\nif 'FORMATTER_FAILS_HERE' in text:\n    sys.stderr.write('cannot format this file')\n    sys.exit(123)\n"
+              "r = subprocess.run([sys.executable, '-m', 'black', '-q', '-'], input=text.encode(), capture_output=True)\nsys.stdout.write(r.stdout.decode())\nsys.exit(r.returncode)\n")
+
+
+def _project_cases():
+    out = []
+    for order in ("fail-first", "fail-last"):
+        for n in (3, 30):
+            out.append({"proj": "fmtcmd-one-file-fails", "order": order, "n": n})
+    for n in (3, 30):
+        for fc in ("root-has-format-command", "root-has-black-options"):
+            out.append({"proj": "nested-project", "n": n, "root": fc})
+    return out
+
+
+def _judge_project(c):
+    """Real sessions with several files / nested configuration files."""
+    import black
+    import sys
+    from ..drivers import plugin
+    from .c03 import check_file
+
+    mode = black.Mode()
+    body = "from inline_snapshot import snapshot\n\n\ndef test_x():\n    assert list(range(%d)) == snapshot([0])\n    assert 'a' == snapshot()\n" % c["n"]
+    clean = black.format_str(body, mode=mode)
+    if c["proj"] == "fmtcmd-one-file-fails":
+        bad = clean + "\n\nMARK = 'FORMATTER_FAILS_HERE'\n"
+        names = ("test_a.py", "test_b.py") if c["order"] == "fail-first" else ("test_b.py", "test_a.py")
+        files = {names[0]: bad, names[1]: clean, "fmt_cmd.py": FMT_SCRIPT,
+                 "pyproject.toml": '[tool.inline-snapshot]\nformat-command="%s fmt_cmd.py {filename}"\n' % sys.executable}
+        d = plugin.mk_project(files)
+        try:
+            r = plugin.session(d, ["--inline-snapshot=create,fix"])
+            after = plugin.listing(d, text=True)
+        finally:
+            plugin.cleanup()
+        if plugin.internal_error(r["out"]):
+            return ("internal-error", r["out"][-600:])
+        good = after[names[1]]
+        if good == clean:
+            return ("harness", "nothing changed")
+        if black.format_str(good, mode=mode) != good:
+            return ("clean-file-not-clean-afterwards", "the formatter failed for %s only, but %s is no longer formatted:\n%s" % (names[0], names[1], good[-400:]))
+        if "Problems" not in r["out"]:
+            return ("formatter-problem-not-reported", r["out"][-300:])
+        return None
+    # nested project: pytest is started in the outer directory, the rootdir (pkg/) has its own pyproject.toml
+    ugly = body.replace("assert 'a' == snapshot()", "assert 'a'  ==  snapshot()")
+    root_pp = ('[tool.inline-snapshot]\nformat-command="%s -m black -q -"\n' % sys.executable) if c["root"] == "root-has-format-command" else "[tool.black]\nline-length = 20\n"
+    files = {"pyproject.toml": root_pp, "pkg/pyproject.toml": "[tool.pytest.ini_options]\naddopts = \"\"\n", "pkg/test_x.py": ugly}
+    d = plugin.mk_project(files)
+    try:
+        r = plugin.session(d, ["pkg", "--inline-snapshot=create,fix"])
+        after = plugin.listing(d, text=True)["pkg/test_x.py"]
+    finally:
+        plugin.cleanup()
+    if plugin.internal_error(r["out"]):
+        return ("internal-error", r["out"][-600:])
+    if "rootdir" in r["out"] and "/pkg" not in r["out"].split("rootdir")[1].split("\n")[0]:
+        return ("harness", "rootdir is not pkg: " + r["out"][:300])
+    if c["root"] == "root-has-format-command":
+        v = check_file(ugly, after, [], ["create", "fix"], False)
+        if v:
+            return ("not-clean-file-layout-changed:" + v[0], v[1])
+    return None
+
+
 def run_case(case):
+    if "proj" in case:
+        v = _judge_project(case)
+        return [{"case": case, "what": v[0], "detail": v[1]}] if v else []
     twin = case.get("twin", False)
     v, ctx = _judge([case], twin)
     if v[0] is None:
@@ -149,6 +221,17 @@ def run_case(case):
 
 def run_task(task):
     out = {"n": 0, "nontrivial": [], "outcomes": {}, "violations": [], "samples": [], "extra": {}}
+    if "projects" in task:
+        for c in task["projects"]:
+            out["n"] += 1
+            vs = run_case(c)
+            out["violations"] += vs
+            lab = "viol:" + vs[0]["what"].split(":")[0] if vs else "ok:project:" + c["proj"]
+            if not vs:
+                out["nontrivial"].append(repr(sorted(c.items())))
+            out["outcomes"][lab] = out["outcomes"].get(lab, 0) + 1
+        out["samples"].append({"project_case": task["projects"][0]})
+        return out
     twin = task["twin"]
     v, ctx = _judge(task["cases"], twin)
     for c in task["cases"]:
